@@ -1,11 +1,11 @@
 package props
 
 import (
-	"strings"
-	"math"
 	"errors"
 	"fmt"
+	"math"
 	"os"
+	"strings"
 	"sync"
 
 	"github.com/dgraph-io/badger"
